@@ -124,7 +124,7 @@ func simEnv(b *Built, racelog string, procs int) []string {
 	for _, kv := range os.Environ() {
 		k := kv[:strings.IndexByte(kv+"=", '=')]
 		switch k {
-		case "GOMAXPROCS", "GORACE", "GODEBUG", "GOTRACEBACK", "TZ", "VSIM_PROCS":
+		case "GOMAXPROCS", "GORACE", "GODEBUG", "GOTRACEBACK", "TZ", "VSIM_PROCS", "VSIM_HSEED":
 			continue
 		}
 		env = append(env, kv)
@@ -249,6 +249,8 @@ func (sp *simProc) simBatch(in, out string, keep, par bool, reps int) (*BatchRes
 		// calendar days have no 00:00 there)
 		zones := []string{"Pacific/Kiritimati", "America/Santiago", "America/Los_Angeles", "America/Sao_Paulo", "Asia/Kathmandu", "America/Havana", "UTC", "Atlantic/Azores", "Pacific/Pago_Pago", "America/Asuncion", "Europe/Berlin"}
 		env = append(env, "TZ="+zones[((hdr.Batch%len(zones))+len(zones))%len(zones)])
+		// seeds handed out by the maphash seam: fixed per batch number
+		env = append(env, fmt.Sprintf("VSIM_HSEED=%d", hdr.Batch+1))
 	}
 	if !par && sp.b.Instr != nil && sp.b.Instr.Seams["nproc"] > 0 {
 		// what the library is told about the processor count varies from batch
@@ -504,6 +506,8 @@ func (a *agg) addBatch(b *Batch, br *BatchResult, keepSamples int) {
 		t.LeakedTasks += s.LeakedTasks
 		t.Selects += s.Selects
 		t.TimersFired += s.TimersFired
+		t.TimersMade += s.TimersMade
+		t.Survivors += s.Survivors
 		t.ForcedGCs += s.ForcedGCs
 		t.HotNaps += s.HotNaps
 		if s.MaxOpSteps > t.MaxOpSteps {
@@ -776,7 +780,11 @@ func checkIn(cfg checkCfg, scratch string, t0 time.Time) int {
 		dwg.Wait()
 	}
 	lifetimes := b.Instr.Seams["gc_lifetime"] > 0
-	if len(detMismatch) > 0 && lifetimes {
+	if len(detMismatch) > 0 && b.Instr.Seams["nondet_selfseed"] > 0 && !lifetimes {
+		// a zero maphash.Hash draws its seed from the runtime: the layout of
+		// whatever it indexes differs from process to process
+		fmt.Printf("vsim: note: %d re-executed runs had a different event log; tolerated because the tree uses self-seeding maphash.Hash values (a random seed per process that the simulator does not control)\n", len(detMismatch))
+	} else if len(detMismatch) > 0 && lifetimes {
 		// The tree uses finalizers / cleanups / weak pointers / unique handles: what
 		// the collector has or has not yet freed is outside the simulator's control,
 		// so step counts may differ between two executions of one seed. Results are
